@@ -1,11 +1,11 @@
 #!/bin/bash
-# usage: confirm_seed.sh <prop-id lower, e.g. c02> <A|B>
+# usage: confirm_seed.sh <prop-id lower, e.g. c02> <A|B> [store-as letter, default the same]
 # Confirms a sub-agent's seeded change in a scratch copy of /repo HEAD (never /repo itself):
 #   build ok, full suite ok with the change, demo fails with the change, demo passes without it;
 # then runs every claimed check against the changed copy. On success stores the change under /verif/seeded/<ID>-<x>/.
 p="$1"; x="$2"
 src=/tmp/seed/$p.out
-id=$(echo $p | tr a-z A-Z)-$x
+id=$(echo $p | tr a-z A-Z)-${3:-$x}
 scr=$(mktemp -d /tmp/hvcseed.XXXXXX)
 export GOFLAGS=-mod=mod GOPROXY=off GOSUMDB=off GOTOOLCHAIN=local
 rsync -a --exclude .git /repo/ "$scr/repo/"
@@ -57,7 +57,7 @@ notes=open('/tmp/seed/%s.out/NOTES.md'%p).read()
 meta={"id":id_,"breaks_property":p.upper(),"origin":"independent sub-agent given only the property text and a scratch worktree",
  "demo_package_dir":d,
  "confirmed":{"build_with_change":"ok","existing_suite_with_change":"ok","demo_with_change":"fails","demo_without_change":"passes","how":"tools/confirm_seed.sh %s %s (scratch copy of /repo HEAD, removed afterwards)"%(p,x)},
- "caught_by":caught.split(),
+ "caught_by":caught.split(),"source_letter":x,
  "needs_to_manifest":"see notes","notes":notes}
 json.dump(meta,open(dst+'/meta.json','w'),indent=1)
 PY
